@@ -23,7 +23,7 @@ def project(p, outcome):
     if outcome["k"] != "ok":
         return (outcome["k"], outcome.get("kind"))
     g = {n: semcmp.canon(v) for n, v in outcome["g"]}
-    names = p["names"]
+    names = p.get("names") or []
     if kind in ("fn", "mod", "fn+iife"):
         out = g.get("__out")
         if out is None or out[0] != "map":
